@@ -16,6 +16,7 @@ simulator in `NumqiModel/Sim.lean` (property C03) and is imported, not duplicate
 -/
 import NumqiModel.Sim
 import NumqiModel.PartialTrace
+import NumqiModel.Channel
 
 namespace Numqi
 namespace Backward
@@ -146,6 +147,73 @@ def slotOf (gs : List GateDesc) (i : Nat) : Option (String × Nat) :=
     else if g.trainable then some (g.name, (firstComeIds gs g.name).idxOf g.objId)
     else none
 
+/-! ### array-level execution of the sweep (what `Driver/C04.lean` runs)
+
+Evaluating `forward` / `backward` as nested closures is exponential in the number of gates, so the driver runs the same
+folds with a `tabulate` / `lookup` round trip after every gate and with the gradient buffers kept as a table of flat arrays.
+`NumqiProofs/Backward.lean` proves `lookup (forwardA …) = forward …` and `absSt (backwardA …) = backward … (absSt …)`
+(`forwardA_eq`, `backwardA_eq`), under the stated guard that every parametrised gate's slot is a key of the table. -/
+
+section arrays
+variable {α : Type} [Add α] [Mul α] [Zero α] [Conj α] {n : Nat}
+
+/-- gate tensors / gradient buffers as a table `(k, slot, flat 2^k×2^k array)`; absent keys read as the zero matrix -/
+abbrev ParamTable (α : Type) := List (Nat × Nat × Array α)
+
+def paramsOf (tab : ParamTable α) : Params α :=
+  fun k s => match tab.find? fun e => e.1 == k && e.2.1 == s with
+    | some e => lookupMat e.2.2
+    | none => fun _ _ => 0
+
+/-- `(q0_conj, q0_grad, gate_grad_np_dict)` on flat arrays -/
+abbrev StA (α : Type) := Array α × Array α × ParamTable α
+
+/-- the state the theorems talk about -/
+def absSt (st : StA α) : Vec n α × Vec n α × Params α := (lookup st.1, lookup st.2.1, paramsOf st.2.2)
+
+def forwardA (Θ : Params α) (gates : List (PGate n α)) (a : Array α) : Array α :=
+  gates.foldl (fun a g => tabulate (n := n) (g.apply Θ (lookup a))) a
+
+def PGate.backA (Θ : Params α) (gate : PGate n α) (st : StA α) : StA α :=
+  let r := gate.back Θ (absSt (n := n) st)
+  (tabulate r.1, tabulate r.2.1, st.2.2.map fun e => (e.1, e.2.1, tabulateMat (k := e.1) (r.2.2 e.1 e.2.1)))
+
+def backwardA (Θ : Params α) (gates : List (PGate n α)) (init : StA α) : StA α :=
+  gates.foldr (fun gate acc => gate.backA Θ acc) init
+
+/-- the slot a gate accumulates into is a key of the table (constant gates: nothing to check) -/
+def PGate.Covered (tab : ParamTable α) : PGate n α → Prop
+  | .unitary (k := k) (.param s) _ => ∃ e ∈ tab, e.1 = k ∧ e.2.1 = s
+  | .control (k := k) (.param s) _ _ _ => ∃ e ∈ tab, e.1 = k ∧ e.2.1 = s
+  | _ => True
+
+def PGate.coveredB (tab : ParamTable α) : PGate n α → Bool
+  | .unitary (k := k) (.param s) _ => tab.any fun e => e.1 == k && e.2.1 == s
+  | .control (k := k) (.param s) _ _ _ => tab.any fun e => e.1 == k && e.2.1 == s
+  | _ => true
+
+end arrays
+
+/-! ### from `_setup`'s `(name, row)` to the slot of the model (`Src.param`) -/
+
+/-- canonical slot of gate `i`: the index of the first gate that reads the same `(name, row)` -/
+def repSlot (gs : List GateDesc) (i : Nat) : Option Nat :=
+  match slotOf gs i with
+  | none => none
+  | some p => (List.range gs.length).find? fun j => slotOf gs j == some p
+
+/-- `ind_gate_to_info[-1]` = `hpgate_name_list`: the sorted names that own a stacked tensor -/
+def nameList (gs : List GateDesc) : List String :=
+  let names := (List.range gs.length).filterMap fun i => (slotOf gs i).map (·.1)
+  (names.foldr (fun nm acc => if acc.contains nm then acc else nm :: acc) []).mergeSort (fun a b => a ≤ b)
+
+/-- number of rows of the stacked tensor of `nm` (`max ind_torch + 1`) -/
+def rowCount (gs : List GateDesc) (nm : String) : Nat :=
+  ((List.range gs.length).filterMap fun i => match slotOf gs i with
+    | some (m, r) => if m == nm then some (r + 1) else none
+    | none => none).foldl max 0
+
+
 /-! ### Knill–Laflamme inner product (`qec/_internal.py:150-189`) -/
 
 section kl
@@ -197,6 +265,59 @@ def sylvBackward (n : Nat) (V : Nat → Nat → α) : Nat → (Nat → α) → (
   | r + 1, s, G => sylvBackward n V r (fun a => s a * s a) (sylvStep n V s G)
 
 end sylvester
+
+/-! ### PSD square root, forward map at the eigenvalue level (`_torch_op.py:7-25`)
+
+`EVL, EVC = eigh(matA)` is a contract; the code then clamps (`maximum(0, EVL)`), takes `repeat` square roots and returns
+`(EVC * sqrt_EVL) @ EVC†`, saving `(sqrt_EVL, EVC)` for the backward pass. -/
+
+section sqrtmfwd
+variable {α : Type} [Add α] [Mul α] [Zero α] [Conj α] [Channel.Analytic α]
+
+def rootIter : Nat → α → α
+  | 0, x => x
+  | r + 1, x => Channel.Analytic.sqrt (rootIter r x)
+
+/-- `sqrt_EVL` (the first saved tensor) -/
+def storedRoots (r : Nat) (evl : Nat → α) (a : Nat) : α := rootIter r (Channel.Analytic.max 0 (evl a))
+
+/-- `_torch_psd_sqrtm_forward_repeat(matA, repeat=r)` given the eigen-data -/
+def psdSqrtmForward (m : Nat) (V : Nat → Nat → α) (r : Nat) (evl : Nat → α) (i j : Nat) : α :=
+  sumRange m fun a => V i a * storedRoots r evl a * conj (V j a)
+
+end sqrtmfwd
+
+/-! ### array-level execution of the repeated Sylvester rule -/
+
+section sylvA
+variable {α : Type} [Add α] [Mul α] [Div α] [Zero α] [Conj α] [DecidableEq α]
+
+def tabMat (m : Nat) (X : Nat → Nat → α) : Array α := Array.ofFn (n := m * m) fun q => X (q.val / m) (q.val % m)
+def ofTab (m : Nat) (a : Array α) : Nat → Nat → α := fun i j => a.getD (i * m + j) 0
+
+/-- `sylvBackward` with the intermediate result tabulated after every pass (`sylvBackwardA_eq`: same values for `i, j < m`) -/
+def sylvBackwardA (m : Nat) (V : Nat → Nat → α) : Nat → (Nat → α) → Array α → Array α
+  | 0, _, G => G
+  | r + 1, s, G => sylvBackwardA m V r (fun a => s a * s a) (tabMat m (sylvStep m V s (ofTab m G)))
+
+/-- the division guard of one call: every pass divides only by non-zero sums, except on the diagonal of a zero root where the
+rule stores 0 (`ind_zero`); stated on the roots of the first pass (`s_a = s_b = 0, a ≠ b` ⇔ some later pass divides by zero
+as well, for real non-negative roots) -/
+def sylvDivides (m : Nat) (s : Nat → α) : Bool :=
+  (List.range m).all fun a => (List.range m).all fun b => a == b || !(decide (s a + s b = 0))
+
+/-- every pass of `sylvBackward m V r s` divides only by non-zero sums (off the zero-root diagonal) -/
+def sylvDividesAll (m : Nat) : Nat → (Nat → α) → Bool
+  | 0, _ => true
+  | r + 1, s => sylvDivides m s && sylvDividesAll m r (fun a => s a * s a)
+
+end sylvA
+
+/-- exact division in ℚ[i] (`x / 0 = 0`, the convention of a Lean field; `NumqiProofs/BackwardCarrier.lean` proves that `QI` with
+this division is a field, so the Sylvester theorems apply to the carrier the driver executes) -/
+instance : Div QI := ⟨fun a b =>
+  let d := QI.normSq b
+  ⟨(a.re * b.re + a.im * b.im) / d, (a.im * b.re - a.re * b.im) / d⟩⟩
 
 /-! ### flat-parameter bridge (`optimize/_internal.py:8-40`) -/
 
